@@ -27,8 +27,8 @@ What is modelled, construct by construct
   `core`; when there was no old file the new one is unlinked.  cmd_line.txt and intro-buildoptions.json are
   snapshotted before they are rewritten and restored (or removed) by the same rollback.
 
-Not modelled: machine files and environment variables (empty), `project(default_options:)`/`subproject(default_options:)`
-(empty), `set_backend` (every `setup` command of the harness passes `--backend=none`, for which no backend option
+`project(default_options:)` / `subproject(default_options:)` are fixed parts of the tree (`Dir.pdoTop`, `pdoSub`,
+`spcall`).  Not modelled: machine files and environment variables (empty), `set_backend` (every `setup` command of the harness passes `--backend=none`, for which no backend option
 is added), languages/compilers (none), everything else in coredata.
 -/
 namespace MesonModel.Life
@@ -58,10 +58,18 @@ structure Core where
 structure Dir where
   top : Defs
   sub : Defs
+  /-- `project('top', default_options: …)`, `project('sub', default_options: …)` and
+  `subproject('sub', default_options: …)` of the build files (never edited by a history) -/
+  pdoTop : Dict := []
+  pdoSub : Dict := []
+  spcall : Dict := []
   core : Option Core := none
   cmdline : Option Dict := none
   intro : Option Store := none
   deriving DecidableEq, Repr, Inhabited
+
+/-- the same source tree with an empty build directory -/
+def Dir.emptied (d : Dir) : Dir := { d with core := none, cmdline := none, intro := none }
 
 /-- the persisted triple of the property statement: coredata, cmd_line.txt, option files (and the introspection file) -/
 def Dir.fresh (top sub : Defs) : Dir := { top := top, sub := sub }
@@ -115,23 +123,25 @@ structure Interp where
   deriving Repr, Inhabited
 
 /-- `intr.run()` on the test tree as a store computation -/
-def interpProg (first : Bool) (initialized : List Str) (top sub : Defs) (cmd : Dict) :
+def interpProg (first : Bool) (initialized : List Str) (top sub : Defs) (pdoTop pdoSub spcall cmd : Dict) :
     M (List (Str × Str × Val) × Bool) := do
-  -- project('top'): option file, then (first invocation only) the command line
+  -- project('top'): option file, then (first invocation only) default_options and the command line
   loadOptionFile [] top
-  if first then initTop [] cmd [] else M.pure ()
+  if first then initTop pdoTop cmd [] else M.pure ()
   let m1 ← readAll [] (top.map (·.1) ++ [sWarningLevel])
   let boom ← condOption [] sBoom
   if boom then fail .meson else M.pure ()
   let late ← condOption [] sBoomLate
   -- subproject('sub')
   loadOptionFile sSub sub
-  if first || !(initialized.contains sSub) then initSub sSub [] [] cmd [] else M.pure ()
+  if first || !(initialized.contains sSub) then initSub sSub spcall pdoSub cmd [] else M.pure ()
   let m2 ← readAll sSub (sub.map (·.1) ++ [sWarningLevel])
   M.pure (m1 ++ m2, late)
 
-def interpret (first : Bool) (c : Core) (top sub : Defs) (cmd : Dict) : Except Err Interp :=
-  match interpProg first c.initialized top sub cmd c.store with
+def interpret (first : Bool) (c : Core) (d : Dir) (cmd : Dict) : Except Err Interp :=
+  let top := d.top
+  let sub := d.sub
+  match interpProg first c.initialized top sub d.pdoTop d.pdoSub d.spcall cmd c.store with
   | (.ok (msgs, late), s') =>
     .ok { core := { store := s', optFiles := [([], top), (sSub, sub)], initialized := setAdd sSub c.initialized },
           msgs := msgs, late := late }
@@ -185,7 +195,7 @@ def commitFirst (d : Dir) (selfOpts user : Dict) : Except Err Interp → Dir × 
 `self.options.cmd_line_options` (what `write_cmd_line_file` records), the interpreter gets it merged over an
 existing cmd_line.txt (`_generate`: `read_cmd_line_file(self.build_dir, user_defined_options)`). -/
 def firstInvocation (d : Dir) (selfOpts : Dict) : Dir × Out :=
-  commitFirst d selfOpts (userOpts d selfOpts) (interpret true newCore d.top d.sub (userOpts d selfOpts))
+  commitFirst d selfOpts (userOpts d selfOpts) (interpret true newCore d (userOpts d selfOpts))
 
 /-- the part of `_generate` after `intr.run()` on a reconfiguration: `update_cmd_line_file(self.options)`; on an
 exception coredata.dat is restored from coredata.dat.prev -/
@@ -204,7 +214,7 @@ def commitReconf (d : Dir) (newD user : Dict) : Except Err Interp → Dir × Out
 def reconfigure (d : Dir) (c : Core) (newD : Dict) : Dir × Out :=
   match setFromConfigure (dArgs newD) false c.store with
   | (.error e, _) => (d, .failed e false)
-  | (.ok _, s1) => commitReconf d newD (userOpts d newD) (interpret false { c with store := s1 } d.top d.sub (userOpts d newD))
+  | (.ok _, s1) => commitReconf d newD (userOpts d newD) (interpret false { c with store := s1 } d (userOpts d newD))
 
 /-- `Conf.__init__`: reload every option file whose recorded hash differs from the file on disk -/
 def reloadChanged (d : Dir) : List (Str × Defs) → M (List (Str × Defs))
